@@ -315,24 +315,68 @@ def run_pair(exe, scripts):
 OBS_PREFIX = ("ran", "raised", "!signal", "!exit", "fault", "update")
 
 
+def segments(lines):
+    """output lines grouped by the `@k` markers printed for `echo k` ops"""
+    seg, cur = {}, None
+    for l in lines:
+        if l.startswith("@"):
+            cur = int(l[1:] or -1)
+            seg[cur] = []
+        elif cur is not None:
+            seg[cur].append(l)
+    return seg
+
+
 def oracle_check(exe, scripts):
-    """run implementation and the spec oracle (driver --oracle); compare only observables of calls.
-    returns list of (name, line index, op, impl, oracle)"""
-    impl_out, _ = run_impl(exe, scripts)
-    orc = run_model(inject_rng(scripts, impl_out), mode="--oracle")
+    """run implementation and the spec oracle (driver --oracle); compare, op by op, the observables
+    of calls (what ran / which error / a crash) made while the latest update had completed.
+    returns list of (name, op index, impl, oracle)"""
+    tagged = []
+    for name, lines in scripts:
+        new = []
+        for k, l in enumerate(lines):
+            if l.split()[0] in ("update", "call", "callnext", "callfinal"):
+                new.append("echo %d" % k)
+            new.append(l)
+        tagged.append((name, new))
+    impl_out, _ = run_impl(exe, tagged)
+    orc = run_model(inject_rng(tagged, impl_out), mode="--oracle")
     bad = []
     for name, lines in scripts:
-        a = [l for l in visible(impl_out.get(name, [])) if not l.startswith(("class ", "method ", "report", "data ", "ss ", "hash ", "control ", "vptrs "))]
-        b = orc.get(name, [])
-        if a != b:
-            i = 0
-            while i < min(len(a), len(b)) and a[i] == b[i]:
-                i += 1
-            bad.append((name, i, a[i] if i < len(a) else "<end>", b[i] if i < len(b) else "<end>"))
+        io = visible(impl_out.get(name, []))
+        a, b = segments(io), segments(orc.get(name, []))
+        live = False
+        for k, l in enumerate(lines):
+            op = l.split()[0]
+            if k not in a:
+                continue
+            x = a[k][0] if a[k] else "<nothing>"
+            y = b.get(k, ["<nothing>"])
+            y = y[0] if y else "<nothing>"
+            if op == "update":
+                live = (x == "update ok" and y == "update ok")
+                if x != y and not x.startswith("update raised hash_search") and x.startswith("update") and y.startswith("update"):
+                    bad.append((name, k, x, y))
+                    break
+                continue
+            if not live:
+                continue
+            if y == "illegal":
+                if x.startswith(("!signal", "!exit")):
+                    break   # undefined behaviour on an illegal call: no verdict, and the process is gone
+                continue
+            if x.startswith(("!signal", "!exit")):
+                bad.append((name, k, x, y))
+                break
+            if y in ("illegal", "<nothing>") or y.startswith(("call bad", "!harness")) or x.startswith(("call bad", "!harness")):
+                continue
+            if x != y:
+                bad.append((name, k, x, y))
+                break
     return bad
 
 
-def shrink(lines, still_fails, budget=120):
+def shrink(lines, still_fails, budget=50):
     """delta debugging on script lines (the `policy` line is kept)"""
     head, body = lines[:1], lines[1:]
     n = 2
@@ -411,3 +455,107 @@ class Check:
         with open(os.path.join(EVID, self.prop + ".json"), "w") as f:
             json.dump(ev, f, indent=1)
         return 1 if self.violations else 0
+
+
+# --------------------------------------------------------------------------------------------------
+# audit file, CLI
+
+def write_audit():
+    """Audit.lean prints the axioms of every theorem under Yomm2/Props and of the generated obligations"""
+    names = []
+    for sub in ("Props", os.path.join("Proofs", "Generated.lean")):
+        root = os.path.join(LEAN, "Yomm2", sub)
+        files = tree_files(root, (".lean",)) if os.path.isdir(root) else [root]
+        for p in sorted(files):
+            src = strip_comments(open(p).read())
+            ns = re.search(r"^namespace\s+(\S+)", src, re.M)
+            ns = ns.group(1) if ns else ""
+            for m in re.finditer(r"^theorem\s+(\S+)", src, re.M):
+                names.append(ns + "." + m.group(1))
+    body = "import Yomm2\n" + "".join("#print axioms %s\n" % n for n in names)
+    path = os.path.join(LEAN, "Audit.lean")
+    if not os.path.exists(path) or open(path).read() != body:
+        open(path, "w").write(body)
+    return names
+
+
+def prepare(ck, need_harness=True):
+    """steps (1) and (2) of every check; returns False when a violation was already reported"""
+    write_audit()
+    ck.lean = lean_build()
+    if not ck.lean.ok:
+        path = write_replay(ck.prop, "proof", {
+            "property": ck.prop, "kind": "proof obligations no longer check",
+            "errors": ck.lean.errors[:30],
+            "note": "a theorem, a generated obligation (constants re-extracted from /repo) or the audit failed",
+        })
+        ck.coverage = {"obligations": max(1, len(ck.lean.theorems)), "discharged": 0,
+                       "checker_cmd": "lake build && lake env lean Audit.lean", "trusted_base": ["Lean 4.33.0 kernel"],
+                       "errors": ck.lean.errors[:10]}
+        ck.violation(path, False)
+        return False
+    if need_harness:
+        ck.exe, err = build_hdyn()
+        if err:
+            path = write_replay(ck.prop, "harness", {"property": ck.prop, "kind": "harness does not build against the current tree", "errors": err[-4000:]})
+            ck.coverage = {"obligations": len(ck.lean.theorems), "discharged": len(ck.lean.theorems),
+                           "checker_cmd": "lake build && lake env lean Audit.lean", "trusted_base": ["Lean 4.33.0 kernel"],
+                           "errors": [err[-2000:]]}
+            ck.violation(path, False)
+            return False
+    return True
+
+
+def known_findings_for(prop):
+    return [k for k in load_known() if k.get("property") == prop and k.get("status") == "open"]
+
+
+def main():
+    ap = argparse.ArgumentParser()
+    ap.add_argument("cmd", choices=["setup", "check", "replay"])
+    ap.add_argument("arg", nargs="?")
+    ap.add_argument("--tier", default=os.environ.get("VERIF_TIER", "quick"))
+    ap.add_argument("--seed", type=int, default=int(os.environ.get("VERIF_SEED", "1")))
+    a = ap.parse_args()
+    if a.cmd == "setup":
+        write_audit()
+        r = lean_build()
+        for e in r.errors:
+            log("setup: " + e)
+        exe, err = build_hdyn()
+        if err:
+            log(err)
+        import checks
+        for fn in getattr(checks, "SETUP_HOOKS", []):
+            fn()
+        return 0 if (r.ok and not err) else 1
+    if a.cmd == "replay":
+        payload = json.load(open(a.arg))
+        exe, err = build_hdyn()
+        for key in ("script", "order_a", "order_b", "presentation_a", "presentation_b"):
+            if key in payload and isinstance(payload[key], list):
+                name = "replay-" + key
+                io, mo, bad, _ = run_pair(exe, [(name, payload[key])])
+                orc = run_model(inject_rng([(name, [l for l in payload[key] if l.strip() != "dump"])], io), mode="--oracle")
+                print("== %s: implementation" % key)
+                print("\n".join(io.get(name, [])))
+                print("== %s: model" % key)
+                print("\n".join(mo.get(name, [])))
+                print("== %s: specification oracle (calls only)" % key)
+                print("\n".join(orc.get(name, [])))
+        return 0
+    import checks
+    fn = getattr(checks, "check_" + a.arg, None)
+    if fn is None:
+        log("no check for " + str(a.arg))
+        return 2
+    ck = Check(a.arg, a.tier if a.tier in ("quick", "thorough") else "quick", a.seed)
+    if prepare(ck, need_harness=getattr(fn, "needs_hdyn", True)):
+        fn(ck)
+    for k in known_findings_for(a.arg):
+        print("KNOWN-FINDING: property=%s %s" % (a.arg, k.get("what", "")), flush=True)
+    return ck.finish(level=getattr(fn, "level", "proof"))
+
+
+if __name__ == "__main__":
+    sys.exit(main())
